@@ -217,6 +217,7 @@ class Generator:
             'kind': spec.get('kind') or ('footer' if impl == 'footer' else ('vec' if impl == 'vec' else impl)),
             'drain_drop': spec.get('drain_drop'),
             'cb': spec.get('cb'),
+            'trait_grow': spec.get('trait_grow'),
             'guard': spec.get('guard'),
             'strip_nested': spec.get('strip_nested'),
             'drop_takes_state': spec.get('drop_takes_state'),
@@ -482,7 +483,10 @@ class Generator:
                 cur['body_line'] = i
                 hdr = '\n'.join(l for k, l in enumerate(lines[cur['header_start']:i], cur['header_start']) if not l.startswith('//@') and k not in cur.get('skip', set()))
                 if re.search(r'\bw:\s*&(mut\s+)?World', hdr):
-                    self.w_funcs.append(cur.get('src', cur['name']) if False else cur['name'])
+                    self.w_funcs.append(cur['name'])
+                    mh = re.search(r'\bfn (\w+)', hdr)
+                    if mh and mh.group(1) != cur['name']:
+                        self.w_funcs.append(mh.group(1))     # the function's own name when the spec entry carries a qualified one
                 cur['header'] = hdr
                 cur = None
             i += 1
